@@ -13,6 +13,11 @@ NOT_DECIDED = {
             "decided as 'applies pandas.merge left to right with these key / how / suffix arguments'",
             "tables are enumerated over three column layouts (all nine standard columns + an extra one; misnamed columns with a col_mapper; a "
             "partial table) with any number of rows; cells are strings with '' standing for a missing cell"],
+    "C15": ["what igraph computes: 'connected_components().membership labels two vertices alike exactly when a path of edges joins them' and "
+            "'community_* never merges different components' are ASSUMED contracts of igraph (third-party C library), not decided",
+            "what SciPy's linkage / fcluster compute, and the cross-module clause 'single linkage cut at t = connected components of the max_edits = t "
+            "neighbour graph': an assumed fact about SciPy's single linkage together with C01/C08's post-conditions; not decided here",
+            "the 'DBSCAN' branch of graph_clustering (undocumented method, needs an ndarray adjacency): outside the contract's domain"],
     "C17": ["that every individual item is EQUALLY LIKELY to be kept (subsample / downsample): a statement about the distribution of numpy's "
             "generator; numpy.random.choice / DataFrame.sample are assumed to draw uniformly, no contract decides it",
             "powerlaw_mle_alpha 'exact': that scipy's bounded search returns the GLOBAL minimiser is an assumed contract of "
